@@ -7,7 +7,15 @@
     abstract identifier, with the hash/encoding functions [Hb] (block), [Hi] (block
     index), [Ht] (table) as parameters; injectivity of Hb and Ht is an explicit premise
     where different content must give different ids.  The delimiter only affects CSV
-    parsing, which happens before the model's input (the parsed rows). *)
+    parsing, which happens before the model's input (the parsed rows).
+
+    Assumption (out of scope, recorded): in branch-file mode `wrgl commit` first consults
+    a cache (ensureTempCommit: the <branch>-tmp commit is reused when its message is the
+    file name, its time is not before the file's modification time and the key is the
+    same) and only then compares table ids.  C02_no_change models the comparison; the
+    cache is not modelled and the harness passes --no-cache.  With the cache, unchanged
+    data is still reported as "no change" (what the property promises), but a file whose
+    content changed while its modification time did not advance is reported unchanged. *)
 From W.lib Require Import Tree Bytes.
 From W.model Require Import Sorter SorterSpec Ingest IngestSpec.
 From W.proofs Require Import Sorter_proofs Ingest_proofs.
@@ -21,7 +29,7 @@ Local Open Scope N_scope.
 Theorem C02_canonical : forall H sort1 sort2 arrive1 arrive2 rs1 rs2 columns pknames rows1 rows2,
   sort_ok (length columns) sort1 -> sort_ok (length columns) sort2 ->
   any_arrival arrive1 -> any_arrival arrive2 ->
-  incl pknames columns -> wf_rows (length columns) rows1 -> cells_in_limit rows1 ->
+  incl pknames columns -> NoDup pknames -> wf_rows (length columns) rows1 -> cells_in_limit rows1 ->
   Permutation rows1 rows2 ->
   (forall pk, key_indices columns pknames = Some pk -> NoDup (map (dkey (length columns) pk) rows1)) ->
   exists T tidx w1 w2,
@@ -48,7 +56,7 @@ Theorem C02_distinct : forall H Hb Hi Ht sort1 sort2 arrive1 arrive2 rs1 rs2
   (forall a b, Hb a = Hb b -> a = b) -> (forall a b, Ht a = Ht b -> a = b) ->
   sort_ok (length cols1) sort1 -> sort_ok (length cols2) sort2 -> any_arrival arrive1 -> any_arrival arrive2 ->
   names_nonempty cols1 -> names_nonempty cols2 ->
-  incl pkn1 cols1 -> incl pkn2 cols2 ->
+  incl pkn1 cols1 -> incl pkn2 cols2 -> NoDup pkn1 -> NoDup pkn2 ->
   wf_rows (length cols1) rows1 -> wf_rows (length cols2) rows2 -> cells_in_limit rows1 -> cells_in_limit rows2 ->
   key_indices cols1 pkn1 = Some pk1 -> key_indices cols2 pkn2 = Some pk2 ->
   NoDup (map (dkey (length cols1) pk1) rows1) -> NoDup (map (dkey (length cols2) pk2) rows2) ->
